@@ -171,6 +171,13 @@ func verifC08(cols, maxRows, textLen int, mode int) {
 		return "x|y"
 	}
 	var want [][]string
+	early := 0
+	if mode == 1 && vfChoice("early-default", 2) == 1 {
+		// a default alignment set before any column exists, and changed (below) once they do
+		early = 1 + vfChoice("early", 3)
+		vfSetAlign(t, 0, early)
+		vfTag("default-set-before-columns-exist")
+	}
 	nh := vfChoice("hdr", cols+2) - 1 // -1: no header
 	if nh >= 0 {
 		items := make([]interface{}, nh)
@@ -217,6 +224,9 @@ func verifC08(cols, maxRows, textLen int, mode int) {
 			aligns[i] = 0
 		case 1:
 			aligns[i] = vfChoice(vfName("align", i), 4)
+			if i == 0 && early != 0 && aligns[0] == 0 {
+				t.Column(0).SetProperty(align.PropertyType, nil) // the early default is withdrawn
+			}
 		case 2:
 			if i == 1 {
 				aligns[i] = vfChoice(vfName("align", i), 4)
@@ -300,4 +310,36 @@ func VerifC08_alignment() {
 // wide, zero-width and combining characters
 func VerifC08_wide() {
 	verifC08(2, 1, 0, 2)
+}
+
+type vfFlakyWriter struct {
+	failAt, calls int
+	got           []byte
+}
+
+func (w *vfFlakyWriter) Write(p []byte) (int, error) {
+	i := w.calls
+	w.calls++
+	if i == w.failAt {
+		return 0, ErrNotCellProperties
+	}
+	w.got = append(w.got, p...)
+	return len(p), nil
+}
+
+// VerifC08_afterfailure: a successful render through a wrapper that failed before is a proper table.
+func VerifC08_afterfailure() {
+	t := New()
+	t.AddHeaders("h", vfString("a", 1, vfASCIInoCR))
+	t.AddRowItems("x|y", "z")
+	t.AddRowItems("only")
+	ref, err := t.Render()
+	vfAssert(err == nil, "render-ok")
+	bad := &vfFlakyWriter{failAt: vfInt("k", 0, 30)}
+	good := &vfFlakyWriter{failAt: -1}
+	errBad := t.RenderTo(bad)
+	vfAssume(bad.calls > bad.failAt) // the failure did happen
+	vfAssert(errBad != nil, "failure-surfaces-as-error")
+	vfAssert(t.RenderTo(good) == nil, "render-after-failure-ok")
+	vfAssert(string(good.got) == ref, "render-after-failure-is-a-proper-table")
 }
